@@ -25,6 +25,7 @@ type Profile struct {
 	Merge                    int
 	WideInts                 bool
 	ScanHeavy                bool
+	FixedScores              bool // every sorted-set member always gets the same score
 }
 
 var defBuckets = []string{"b1", "b2", "b"}
@@ -327,6 +328,19 @@ func (g *Gen) zsetOp(write bool) {
 			return
 		}
 		g.wrote[g.skey("zset", b)] = true
+		if g.p.FixedScores {
+			zk := g.zkey()
+			sel := g.r.Intn(10)
+			switch {
+			case sel < 7:
+				g.add("zadd %s %s %d %s", hb, zk, len(zk)%4, hx([]byte("v"+zk)))
+			case sel < 9:
+				g.add("zrem %s %s", hb, zk)
+			default:
+				g.add("zrem %s %s", hb, zk)
+			}
+			return
+		}
 		switch g.r.Intn(12) {
 		case 0, 1, 2, 3, 4, 5:
 			g.add("zadd %s %s %s %s", hb, g.zkey(), g.score(), hx(g.val()))
@@ -474,6 +488,7 @@ func runHistory(st *St, p Profile, open string, body []string) (results []string
 	st.run("reset")
 	st.run(open)
 	obs := obsCalls(p)
+	merged := false
 	doObs := func() []string {
 		var rs []string
 		for _, c := range obs {
@@ -498,10 +513,27 @@ func runHistory(st *St, p Profile, open string, body []string) (results []string
 			after := doObs()
 			for i := range before {
 				if i < len(after) && before[i] != after[i] {
+					if merged && after[i] == "err" && isEmptyAnswer(before[i]) {
+						emit("#KNOWN F30 after Merge and reopen the empty structure read by %q answers 'not found' (before: %q)", obs[i], before[i])
+						continue
+					}
 					emit("#SPEC reopen-changed call=%q before=%q after=%q", obs[i], before[i], after[i])
 				}
 			}
 			results = append(results, after...)
+			continue
+		}
+		if c == "merge" {
+			before := doObs()
+			if st.run("merge") == "ok" {
+				merged = true
+			}
+			after := doObs()
+			for i := range before {
+				if i < len(after) && before[i] != after[i] {
+					emit("#SPEC merge-changed call=%q before=%q after=%q", obs[i], before[i], after[i])
+				}
+			}
 			continue
 		}
 		results = append(results, st.run(c))
